@@ -32,7 +32,7 @@ import (
 	"verifharness/vh"
 )
 
-var pass = flag.String("pass", "hist", "seq|hist|block")
+var pass = flag.String("pass", "hist", "seq|hist|block|blackhole")
 
 const closeSlack = time.Second
 
@@ -278,6 +278,98 @@ func ensureOpenPass(c *vh.Ctx) {
 		// A <scenario> | <reconnectGen delta of the redundant Opens> <loop alive afterwards>   (model: 0 1)
 		line := fmt.Sprintf("A %s | %s %d", x.name, vh.B01(changed != ""), pokes)
 		c.Case(line, line, true)
+	}
+}
+
+// blackholePass: Close while the connect loop is INSIDE a dial to a black-holed peer (the attempt
+// neither completes nor is refused; it ends only when its context is cancelled, else after a 30 s
+// "OS" timeout) — after an involuntary drop, and during the OpenBackground cold retry; HSMS-SS and
+// SECS-I, active role. Close must abort the dial through its context and return within
+// closeTimeout + slack; afterwards: NotConnected, clean, second Close nil, no further dial.
+// Model correspondence: the loop at LcLStart LcSP0 with LcLDial false enabled (the dial returning an
+// error when its generation is torn down by LcSupClose), then LcLFailWaited / LcLSleepCancel /
+// LcLFenceStep exit and LcClose7 — theorem C10_close_clean covers the state Close returns in.
+func blackholePass(c *vh.Ctx) {
+	for _, s1 := range []bool{false, true} {
+		for _, cold := range []bool{false, true} {
+			cfg := lc.DefaultCfg()
+			cfg.CloseTimeout = time.Second
+			cfg.BackoffInit, cfg.BackoffMult, cfg.T5 = 3*time.Millisecond, 1, 3*time.Millisecond
+			plan := func(n int) lc.Plan {
+				p := lc.Normal()
+				switch {
+				case cold && n == 0:
+					p.DialErr = true
+				case !cold && n == 0:
+					p.DropAfter = 5 * time.Millisecond
+				default:
+					p.DialBlackhole = true
+				}
+				return p
+			}
+			mk := lc.New
+			if s1 {
+				mk = lc.NewSecs1
+			}
+			r, err := mk(true, cfg, plan)
+			if err != nil {
+				c.Fail("C10: cannot build a connection", err.Error())
+				continue
+			}
+			tag := "blackhole:after-drop"
+			if cold {
+				tag = "blackhole:cold-retry"
+			}
+			if o := r.Open(false, 2*time.Second); o.Class != "ok" {
+				c.Fail("C10: Open(background) failed", tag+" "+rname(r)+": "+o.Class)
+			}
+			inDial := func() bool {
+				for _, e := range r.Events() {
+					if e.K == "D" && e.Res == "blackhole" {
+						return true
+					}
+				}
+				return false
+			}
+			dl := time.Now().Add(3 * time.Second)
+			for time.Now().Before(dl) && !inDial() {
+				time.Sleep(200 * time.Microsecond)
+			}
+			if !inDial() {
+				c.Fail("C10: harness: the connect loop never reached the black-holed dial", tag+" "+rname(r))
+			}
+			time.Sleep(5 * time.Millisecond)
+			res := r.Close()
+			checkCloseLatency(c, r, res, tag)
+			if res.Class == "hung" || res.Elapsed > r.CloseTimeout+closeSlack {
+				c.Fail("C10: Close did not abort a connect attempt in flight (blocked behind a black-holed dial)",
+					fmt.Sprintf("%s %s closeTimeout_ms=%d class=%s", tag, rname(r), r.CloseTimeout.Milliseconds(), res.Class))
+			} else {
+				aborted := false
+				for _, e := range r.Events() {
+					if e.K == "B" && e.Res == "cancelled" {
+						aborted = true
+					}
+				}
+				if !aborted {
+					c.Fail("C10: Close returned but the black-holed dial was not cancelled through its context", tag+" "+rname(r))
+				}
+				if res.State != hsms.NotConnectedState || res.Goroutines != 0 || res.OpenConns != 0 || res.Loops != 0 {
+					c.Fail("C10: connection not clean after Close during a dial", fmt.Sprintf("%s %s gor=%d handles=%d loops=%d", tag, rname(r), res.Goroutines, res.OpenConns, res.Loops))
+				}
+				if r2 := r.Close(); r2.Class != "ok" {
+					c.Fail("C10: second Close is not nil", tag+" "+rname(r)+": "+r2.Class)
+				}
+				nd := r.Dials()
+				time.Sleep(20 * time.Millisecond)
+				if r.Dials() != nd {
+					c.Fail("C10: dial after Close", tag+" "+rname(r))
+				}
+			}
+			r.Shutdown()
+			c.Count("blackhole/" + rname(r))
+			judge(c, r, tag)
+		}
 	}
 }
 
@@ -578,6 +670,8 @@ func main() {
 		histPass(c)
 	case "block":
 		blockPass(c)
+	case "blackhole":
+		blackholePass(c)
 	default:
 		c.Note("unknown pass " + *pass)
 	}
